@@ -335,3 +335,87 @@ def _arg_places(t):
         p = a.get("c") or a.get("m")
         if p is not None:
             yield p
+
+
+# ------------------------------------------------------------------------------------------------
+# C07: the binding powers of a branch are adjusted at most once per branch (L-LOOP)
+# ------------------------------------------------------------------------------------------------
+BP_MUTATORS = re.compile(r"HashMap::(entry|insert|get_mut|remove|retain|clear|iter_mut|values_mut|extend|drain)$|IndexMut.*::index_mut$")
+
+
+def _loop_kind(body, lp):
+    """what the loop iterates: provenance text of the receiver of the Iterator::next call in its header"""
+    pr = P(body)
+    for b in sorted(lp["body"]):
+        t = body.blocks[b]["t"]
+        if t["t"] == "call":
+            e = pr.call_expr(t)
+            if e[1].endswith("Iterator>::next") or e[3].endswith("Iterator::next"):
+                if b == lp["header"] or body.dominates(lp["header"], b):
+                    return e
+    return None
+
+
+def bp_once(ctx, rep, rid="LOOP"):
+    rep.rule(rid, "LOOP: in OperatorValidator::run every mutation of RecursiveBranches.binding_power executes at most once per recursive "
+                  "branch: from a mutation site no mutation site (itself included) is reachable again without passing the header of "
+                  "the loop over `branches` or over `sema.recursive` (a swap inside the loop over the branch's operator tokens runs once "
+                  "per right-associative token and cancels itself for an even number of them)")
+    lib = ctx.lelwel()
+    run = lib.one("OperatorValidator::run")
+    bodies = [run] + [b for b in lib.bodies.values() if b.parent_id == run.id]
+    sites = []
+    for body in bodies:
+        for pt, name, decl, args, t in calls(body):
+            if (BP_MUTATORS.search(name) or BP_MUTATORS.search(decl)) and any(
+                    x[0] == "field" and x[3] == "binding_power" for a in args for x in walk(a)):
+                sites.append((body, pt, name))
+    if not sites:
+        raise MissingAnchor("OperatorValidator::run: no mutation of RecursiveBranches.binding_power found")
+    for body, pt, name in sites:
+        if body is not run:
+            rep.violation(rid, "OperatorValidator::run|binding_power|in-closure", "binding_power is mutated inside a closure of OperatorValidator::run; "
+                          "how often the closure runs per branch cannot be bounded by this rule (fail closed)", site(body, pt))
+            continue
+        ok_headers = set()
+        inner = []
+        for lp in body.loops():
+            if pt[0] not in lp["body"]:
+                continue
+            e = _loop_kind(body, lp)
+            txt = show(e, 4000) if e else ""
+            fields = {x[3] for x in walk(e) if x[0] == "field"} if e else set()
+            if "branches" in fields or ("recursive" in fields and "first_sets" not in fields):
+                ok_headers.add(lp["header"])
+            else:
+                inner.append((lp, ".".join(sorted(fields)) or "?"))
+        if not ok_headers:
+            raise MissingAnchor("OperatorValidator::run: the mutation of binding_power is not inside a loop over `branches` / `sema.recursive`")
+        site_pts = {p for b2, p, _ in sites if b2 is body}
+        # latch idiom: site gated by `flag == false`, flag set to true afterwards
+        latch = set()
+        for e, tr in gates(body, pt[0]):
+            if e[0] == "local" and tr is False:
+                latch.add(e[1])
+
+        def blocked(p, it):
+            if p[0] in ok_headers and p[1] == 0:
+                return True
+            if isinstance(it, dict) and "rv" in it and not it["a"]["p"] and it["a"]["l"] in latch:
+                rv = it["rv"]
+                if rv["r"] == "use" and "k" in rv["o"] and rv["o"]["k"].get("v") in (1, True):
+                    return True
+            return False
+
+        path = flow.find_path(body, pt, lambda p, it: p in site_pts, blocks_point=blocked,
+                              edge_ok=lambda s, t, lab: t not in ok_headers)
+        if path is None:
+            rep.ok(rid, "OperatorValidator::run: %s on binding_power runs at most once per branch (enclosing loops: %s)"
+                   % (fn_tail(name), sorted(ok_headers)))
+        else:
+            what = "; ".join("it is inside the loop whose iterator derives from fields {%s}" % t for _, t in inner) or "straight-line repetition"
+            rep.violation(rid, "OperatorValidator::run|binding_power|%s|more-than-once-per-branch" % fn_tail(name),
+                          "OperatorValidator::run: the mutation of binding_power (%s) can execute more than once for one branch (%s): a branch whose "
+                          "operator position lists an even number of `right` tokens gets its powers swapped back and parses left-associatively"
+                          % (fn_tail(name), what), site(body, pt), flow.describe_path(body, path))
+    rep.count("binding_power mutation sites", len(sites))
